@@ -56,7 +56,7 @@ ASSUMPTIONS = [
     'authalic_sphere_radius and mean_normal_gravity are truncated series (not identities) and out of scope, as are the WGS inertial moments',
     'seed: quick explores the DESIGN lattice itself (jitter entry 0) plus the off-grid copy VERIF_SEED mod 8; thorough explores all 8',
 ]
-REQUIRED_CLASSES = ['lat:number-types', 'object-history', 'f=0', 'f:tiny(<=1e-5)', 'f:small(<=1e-3)', 'f:earthlike(<=0.01)', 'f:large(>0.01)', 'cls:ReferenceEllipsoid',
+REQUIRED_CLASSES = ['lat:arrays-nan-range-2d', 'lat:number-types', 'object-history', 'f=0', 'f:tiny(<=1e-5)', 'f:small(<=1e-3)', 'f:earthlike(<=0.01)', 'f:large(>0.01)', 'cls:ReferenceEllipsoid',
                     'cls:WGS', 'lat:equator', 'lat:pole', 'lat:mid', 'lat:near-pole/equator', 'h=0', 'h>0', 'continuity:f=0',
                     'continuity:f>0', 'body', 'body:f=0', 'igf', 'welmec']
 
@@ -390,6 +390,43 @@ def check_gravity(ctx, E, R, P, ekey, lats, hs, clsname):
     except Exception as ex:
         ctx.evals += 1
         ctx.fail('normal_gravity(whole-degree grid) raises', ekey, f'{type(ex).__name__}: {ex}'[:160], 'values')
+    # (a) latitude arrays with missing entries (NaN): every valid entry keeps its own value;  (b) latitudes outside [-90, 90] follow the
+    # periodicity of sin^2 (100 -> 80, 180 -> 0, 270 -> 90, 720 -> 0, -450 -> 90, 190 -> 10, -181 -> 1);  (c) 2-D latitude arrays (grids)
+    try:
+        base_l = [0.0, 30.0, 90.0, -30.0, 60.0, -90.0, 45.0]
+        ref_l = {l: float(E.normal_gravity(l)) for l in base_l}
+        for gaps in ((2,), (1, 4), (0, 3, 5), (6,)):
+            arr = _np.array(base_l); arr[list(gaps)] = _np.nan
+            for hu in hs[:2]:
+                try:
+                    with _np.errstate(all='ignore'):
+                        v = _np.asarray(E.normal_gravity(arr.copy(), hu * a) if hu != 0.0 else E.normal_gravity(arr.copy()), float)
+                except Exception:
+                    ctx.outcome('nan-latitudes-refused'); continue
+                exp_h = _np.array([float(E.normal_gravity(l, hu * a)) if hu != 0.0 else ref_l[l] for l in base_l])
+                ok = v.shape == (len(base_l),) and all(abs(v[i] - exp_h[i]) <= TOL * abs(exp_h[i]) for i in range(len(base_l)) if i not in gaps)
+                ctx.expect(ok, 'normal_gravity(latitude array with missing entries): every valid entry keeps its own value', f'{ekey} gaps={gaps} h={hu:g}a', v, exp_h, TOL)
+        for out_l, prin in ((100.0, 80.0), (180.0, 0.0), (270.0, 90.0), (720.0, 0.0), (-450.0, 90.0), (190.0, 10.0), (-181.0, 1.0), (90.000001, 89.999999), (-135.0, 45.0)):
+            for hu in hs[:2]:
+                g_o = float(E.normal_gravity(out_l, hu * a)) if hu != 0.0 else float(E.normal_gravity(out_l))
+                g_p = float(E.normal_gravity(prin, hu * a)) if hu != 0.0 else float(E.normal_gravity(prin))
+                ctx.expect(_ok(_rel(g_o, g_p), 1e-9), 'normal_gravity follows the periodicity of sin^2(latitude) outside [-90, 90]', f'{ekey} lat={out_l!r} ~ {prin!r} h={hu:g}a', g_o, g_p, 1e-9)
+                ga = _np.asarray(E.normal_gravity(_np.array([out_l, prin]), hu * a) if hu != 0.0 else E.normal_gravity(_np.array([out_l, prin])), float)
+                ctx.expect(ga.shape == (2,) and _ok(_rel(ga[0], g_p), 1e-9), 'normal_gravity(array) follows the periodicity of sin^2(latitude) outside [-90, 90]', f'{ekey} lat={out_l!r} ~ {prin!r} h={hu:g}a', ga, g_p, 1e-9)
+        la_, lo_ = _np.array([0.0, 30.0, -45.0, 90.0]), _np.array([10.0, 20.0, 30.0])
+        for gname, grid in (('meshgrid(lat, lon) xy', _np.meshgrid(la_, lo_)[0]), ('meshgrid(lat, lon) ij', _np.meshgrid(la_, lo_, indexing='ij')[0]), ('tracks x samples', _np.array([[0.0, 30.0, 60.0], [90.0, -30.0, 45.0]]))):
+            for hu in hs[:2]:
+                try:
+                    v = _np.asarray(E.normal_gravity(grid.copy(), hu * a) if hu != 0.0 else E.normal_gravity(grid.copy()), float)
+                except Exception:
+                    ctx.outcome('2d-latitudes-refused'); continue
+                exp2 = _np.vectorize(lambda l: float(E.normal_gravity(float(l), hu * a)) if hu != 0.0 else float(E.normal_gravity(float(l))))(grid)
+                ok = v.shape == grid.shape and bool(_np.all(_np.abs(v - exp2) <= TOL * _np.abs(exp2)))
+                ctx.expect(ok, 'normal_gravity(2-D latitude array): element (i, j) = the scalar answer for latitude (i, j)', f'{ekey} grid={gname} h={hu:g}a', v.ravel()[:4], exp2.ravel()[:4], TOL)
+        ctx.cls('lat:arrays-nan-range-2d')
+    except Exception as ex:
+        ctx.evals += 1
+        ctx.fail('normal_gravity (missing entries / out-of-range / 2-D latitudes) raises', ekey, f'{type(ex).__name__}: {ex}'[:160], 'values')
     # laws that relate grid points
     for lat in lats:
         for hu in hs:
